@@ -207,6 +207,10 @@ class SidModel:
             d = self.rd.single_def(e.id, at)
             if d is not None and d.kind == "assign" and d.index is None and d.value is not None:
                 return self.seq_offset(d.value, d.nid, depth + 1)
+            if d is not None and d.kind == "assign" and d.star and not d.after_star and d.value is not None:
+                # `_, rev, auth, *subs = parts`: subs is the list of parts from its position on
+                o = self.seq_offset(d.value, d.nid, depth + 1)
+                return None if o is None else o + t.cast(int, d.index)
         return None
 
     def component(self, e: t.Optional[ast.expr], at: t.Any, depth: int = 0) -> t.Optional[t.Tuple[int, t.Optional[int]]]:
@@ -239,6 +243,9 @@ class SidModel:
                 return (o, None) if o is not None else None
             if len(ds) == 1 and ds[0].kind == "assign" and ds[0].index is None and ds[0].value is not None:
                 return self.component(ds[0].value, ds[0].nid, depth + 1)
+            if len(ds) == 1 and ds[0].kind == "assign" and ds[0].index is not None and not ds[0].star and not ds[0].after_star and ds[0].value is not None:
+                o = self.seq_offset(ds[0].value, ds[0].nid, depth + 1)
+                return None if o is None else (o + ds[0].index, o + ds[0].index)
         return None
 
     groups_are_runs = False
@@ -323,14 +330,26 @@ def ranges(repo: Repo, chk: Check, f: Func, world: World, runs: t.List[Run]) -> 
         chk.ob("O2", Site.of(f, node), ok, f"byte store {unparse(node.value)} in {iv}" if ok else f"byte store {unparse(node.value)} can be {iv}")
     chk.count("range sinks", n)
     chk.require_min("range sinks", 2)
-    # SubAuthorityCount (the value stored in byte 1): exactly 1..15 (not more: malformed SIDs accepted; not fewer: well-formed SIDs rejected)
-    cnt = [s_ for s_ in stores if repo.try_fold(s_.targets[0].slice, f.mod) == (True, 1)]  # type: ignore[attr-defined]
-    for node in cnt[:1]:
-        iv = res.iv_of(node.value)
+    try:
+        pieces, _ret = sid_pieces(repo, f)
+    except NotUnderstood:
+        pieces = []  # reported by the layout rule
+    # single bytes built with bytes([a, b]): each element must fit a byte (ValueError otherwise, but from the wrong place)
+    for p_ in pieces:
+        if p_.kind == "int" and p_.width == 1 and isinstance(p_.at, ast.Call):
+            n += 1
+            iv = res.iv_of(t.cast(ast.expr, p_.value))
+            ok = iv.within(0, 255)
+            chk.ob("O2", Site.of(f, p_.value), ok, f"byte {unparse(p_.value)} in {iv}" if ok else f"byte {unparse(p_.value)} can be {iv}")
+    chk.count("range sinks", n)
+    # SubAuthorityCount (the second byte): exactly 1..15 (not more: malformed SIDs accepted; not fewer: well-formed SIDs rejected)
+    if len(pieces) >= 2 and pieces[1].kind == "int" and pieces[1].width == 1:
+        cv = t.cast(ast.expr, pieces[1].value)
+        iv = res.iv_of(cv)
         ok = iv.within(1, 15)
-        chk.ob("O2", Site.of(f, node, "sub authority count"), ok, f"count in {iv} is within 1..15" if ok else f"the number of sub authorities can be {iv}: MS-DTYP allows 1..15")
+        chk.ob("O2", Site.of(f, cv, "sub authority count"), ok, f"count in {iv} is within 1..15" if ok else f"the number of sub authorities can be {iv}: MS-DTYP allows 1..15")
         okc = iv.lo is not None and iv.hi is not None and iv.lo <= 1 and iv.hi >= 15
-        chk.ob("O2", Site.of(f, node, "sub authority count completeness"), okc, "every count from 1 to 15 is accepted" if okc else f"only counts in {iv} get through the grammar and guards: well-formed SIDs with up to 15 sub authorities are rejected")
+        chk.ob("O2", Site.of(f, cv, "sub authority count completeness"), okc, "every count from 1 to 15 is accepted" if okc else f"only counts in {iv} get through the grammar and guards: well-formed SIDs with up to 15 sub authorities are rejected")
     # the bytes overwritten by revision / count must be zero: authority < 2^48 when it is packed into 8 bytes
     base = [node for node in body_nodes(f.node) if (_pack_sink(repo, f, node) or (None, 0, False, ""))[1] == 8]
     if base and stores:
@@ -364,48 +383,208 @@ def _groups_are_first_runs(repo: Repo, f: Func) -> bool:
 
 
 # ------------------------------------------------------------------------- O3
+class Piece:
+    """One stretch of the assembled SID bytes: an integer field, literal bytes, or a loop appending fields."""
+
+    def __init__(self, kind: str, at: ast.AST, width: int = 0, order: str = "", signed: bool = False, value: t.Optional[ast.expr] = None, body: t.Optional[t.List["Piece"]] = None, lit: bytes = b"") -> None:
+        self.kind, self.at, self.width, self.order, self.signed, self.value, self.body, self.lit = kind, at, width, order, signed, value, body or [], lit
+        self.stripped = 0  # top bytes of a wider big-endian field that were overwritten by other pieces
+
+    def __repr__(self) -> str:
+        if self.kind == "int":
+            return f"{unparse(self.value)}:{self.width}{'' if self.width == 1 else self.order[:1]}"
+        if self.kind == "loop":
+            return f"loop[{', '.join(map(repr, self.body))}]"
+        return repr(self.lit)
+
+
+class NotUnderstood(Exception):
+    pass
+
+
+def sid_pieces(repo: Repo, f: Func) -> t.Tuple[t.List[Piece], ast.AST]:
+    """The byte string sid_to_bytes returns, as pieces in order.  Understands: x.to_bytes(w, order) / one-field struct.pack,
+    bytes([a, b]), bytes(v) / bytearray(v), a + b, b''.join(list), list and byte accumulators grown by += / append / extend
+    (also inside one for loop), and single byte stores v[k] = x over the top bytes of a big-endian field."""
+    rets = [n for n in body_nodes(f.node) if isinstance(n, ast.Return)]
+    if len(rets) != 1 or rets[0].value is None or rets[0] not in f.node.body:
+        raise NotUnderstood("sid_to_bytes does not end in one return statement")
+
+    locals_ = set(f.params) | {x.id for x in ast.walk(f.node) if isinstance(x, ast.Name) and isinstance(x.ctx, ast.Store)}
+
+    def of_list(e: ast.expr, at: ast.AST) -> t.List[Piece]:
+        if isinstance(e, (ast.List, ast.Tuple)):
+            out: t.List[Piece] = []
+            for x in e.elts:
+                if isinstance(x, ast.Starred):
+                    out += of_list(x.value, at)
+                else:
+                    out += of(x, at)
+            return out
+        if isinstance(e, ast.Name):
+            return accumulate(e.id, at, True)
+        raise NotUnderstood(f"list of parts {unparse(e)[:40]}")
+
+    def of(e: ast.expr, at: ast.AST) -> t.List[Piece]:
+        okc, v = repo.try_fold(e, f.mod) if not any(isinstance(x, ast.Name) and x.id in locals_ for x in ast.walk(e)) else (False, None)
+        if okc and isinstance(v, (bytes, bytearray)):
+            return [Piece("lit", e, lit=bytes(v))] if v else []
+        sk = _pack_sink(repo, f, e)
+        if sk is not None:
+            if sk[1] < 0:
+                raise NotUnderstood("field width is not constant")
+            return [Piece("int", e, sk[1], sk[3] if sk[1] > 1 else "big", sk[2], sk[0])]
+        if isinstance(e, ast.Call) and repo.dotted(e.func, f.mod) == "struct.pack" and len(e.args) >= 2 and not any(isinstance(x, ast.Starred) for x in e.args):
+            okf, fmt = repo.try_fold(e.args[0], f.mod)
+            table = {"B": (1, False), "H": (2, False), "I": (4, False), "L": (4, False), "Q": (8, False), "b": (1, True), "h": (2, True), "i": (4, True), "l": (4, True), "q": (8, True)}
+            if okf and isinstance(fmt, str) and fmt[:1] in "<>!" and len(fmt) == len(e.args) and all(ch in table for ch in fmt[1:]):
+                return [Piece("int", e, table[ch][0], "little" if fmt[0] == "<" else "big", table[ch][1], v_) for ch, v_ in zip(fmt[1:], e.args[1:])]
+            raise NotUnderstood(f"struct.pack format {unparse(e.args[0])}")
+        if isinstance(e, ast.Call) and isinstance(e.func, ast.Name) and e.func.id in ("bytes", "bytearray") and len(e.args) == 1 and not e.keywords:
+            a0 = e.args[0]
+            if isinstance(a0, (ast.List, ast.Tuple)):
+                if any(isinstance(x, ast.Starred) for x in a0.elts):
+                    raise NotUnderstood("bytes([...]) with a starred element")
+                return [Piece("int", e, 1, "big", False, x) for x in a0.elts]
+            return of(a0, at)
+        if isinstance(e, ast.BinOp) and isinstance(e.op, ast.Add):
+            return of(e.left, at) + of(e.right, at)
+        if isinstance(e, ast.Call) and isinstance(e.func, ast.Attribute) and e.func.attr == "join" and len(e.args) == 1 and repo.try_fold(e.func.value, f.mod) == (True, b""):
+            return of_list(e.args[0], at)
+        if isinstance(e, ast.Name):
+            return accumulate(e.id, at, False)
+        raise NotUnderstood(f"byte expression {unparse(e)[:50]}")
+
+    def mutations(stmts: t.List[ast.stmt], name: str) -> bool:
+        return any(isinstance(x, ast.Name) and x.id == name and isinstance(x.ctx, ast.Store) or isinstance(x, ast.Subscript) and isinstance(x.ctx, ast.Store) and unparse(x.value) == name or isinstance(x, ast.Call) and isinstance(x.func, ast.Attribute) and unparse(x.func.value) == name and x.func.attr in ("append", "extend", "insert", "pop", "reverse", "clear", "remove", "sort") for s_ in stmts for x in ast.walk(s_))
+
+    def step(s_: ast.stmt, name: str, is_list: bool, cur: t.List[Piece]) -> t.Optional[t.List[Piece]]:
+        """Effect of one statement on the accumulator: the pieces it appends (None: it does not touch it)."""
+        if not mutations([s_], name):
+            return None
+        if isinstance(s_, ast.AugAssign) and isinstance(s_.op, ast.Add) and unparse(s_.target) == name:
+            return of_list(s_.value, s_) if is_list else of(s_.value, s_)
+        if isinstance(s_, ast.Expr) and isinstance(s_.value, ast.Call) and isinstance(s_.value.func, ast.Attribute) and unparse(s_.value.func.value) == name and len(s_.value.args) == 1:
+            m = s_.value.func.attr
+            if m == "append" and is_list:
+                return of(s_.value.args[0], s_)
+            if m == "extend":
+                return of_list(s_.value.args[0], s_) if is_list else of(s_.value.args[0], s_)
+        if isinstance(s_, ast.Assign) and len(s_.targets) == 1 and isinstance(s_.targets[0], ast.Subscript) and unparse(s_.targets[0].value) == name and not is_list:
+            okk, k = repo.try_fold(s_.targets[0].slice, f.mod)
+            if okk and isinstance(k, int) and k >= 0:
+                overwrite(cur, k, Piece("int", s_, 1, "big", False, s_.value))
+                return []
+        raise NotUnderstood(f"statement {unparse(s_)[:50]}")
+
+    def overwrite(cur: t.List[Piece], k: int, new: Piece) -> None:
+        pos = 0
+        for i, p_ in enumerate(cur):
+            if p_.kind == "loop":
+                break
+            w = p_.width if p_.kind == "int" else len(p_.lit)
+            if pos == k and p_.kind == "int" and (p_.order == "big" or w == 1):
+                if w == 1:
+                    cur[i] = new
+                else:
+                    rest = Piece("int", p_.at, w - 1, p_.order, p_.signed, p_.value)
+                    rest.stripped = p_.stripped + 1
+                    cur[i:i + 1] = [new, rest]
+                return
+            pos += w
+        raise NotUnderstood(f"byte {k} is stored over something that is not the top byte of a big-endian field")
+
+    def accumulate(name: str, at: ast.AST, is_list: bool) -> t.List[Piece]:
+        cur: t.Optional[t.List[Piece]] = None
+        top: t.List[ast.stmt] = []
+        for s_ in f.node.body:
+            # try: <statements> except ...: raise  - the protected statements run in line when nothing is raised
+            if isinstance(s_, ast.Try) and not s_.finalbody and not s_.orelse and all(h.body and isinstance(h.body[-1], ast.Raise) for h in s_.handlers):
+                top += s_.body
+            else:
+                top.append(s_)
+        for s_ in top:
+            if s_ is at or any(x is at for x in ast.walk(s_)):
+                break
+            if isinstance(s_, (ast.Assign, ast.AnnAssign)) and s_.value is not None and [unparse(x) for x in (s_.targets if isinstance(s_, ast.Assign) else [s_.target])] == [name]:
+                if cur is not None:
+                    raise NotUnderstood(f"{name} is assigned twice")
+                cur = of_list(s_.value, s_) if is_list else of(s_.value, s_)
+                continue
+            if not mutations([s_], name):
+                continue
+            if cur is None:
+                raise NotUnderstood(f"{name} is changed before it is assigned")
+            if isinstance(s_, ast.For) and not s_.orelse:
+                body: t.List[Piece] = []
+                for b_ in s_.body:
+                    if isinstance(b_, (ast.If, ast.For, ast.While, ast.Try, ast.With)) and mutations([b_], name):
+                        raise NotUnderstood(f"{name} is grown conditionally inside the loop")
+                    got = step(b_, name, is_list, body)
+                    if got is not None:
+                        body += got
+                cur.append(Piece("loop", s_, body=body))
+                continue
+            got = step(s_, name, is_list, cur)
+            if got is not None:
+                cur += got
+        if cur is None:
+            raise NotUnderstood(f"{name} has no top-level definition")
+        return cur
+
+    return of(rets[0].value, rets[0]), rets[0]
+
+
+def _is_count(model: SidModel, v: ast.expr, at: ast.AST) -> bool:
+    """v is the number of sub authorities: len(parts from 3 on), len(parts from o on) - k with o + k = 3, or a local holding that."""
+    repo, f = model.repo, model.f
+    if isinstance(v, ast.Call) and unparse(v.func) == "len" and len(v.args) == 1:
+        return model.seq_offset(v.args[0], at) == 3
+    if isinstance(v, ast.BinOp) and isinstance(v.op, ast.Sub) and isinstance(v.left, ast.Call) and unparse(v.left.func) == "len" and len(v.left.args) == 1:
+        o = model.seq_offset(v.left.args[0], at)
+        okk, k = repo.try_fold(v.right, f.mod)
+        return o is not None and okk and isinstance(k, int) and o + k == 3
+    if isinstance(v, ast.Name):
+        d = model.rd.single_def(v.id, at)
+        if d is not None and d.kind == "assign" and d.index is None and d.value is not None:
+            return _is_count(model, d.value, t.cast(ast.AST, d.stmt) if d.stmt is not None else at)
+    return False
+
+
 def sid_layout(repo: Repo, chk: Check, f: Func) -> None:
     """Revision(1) SubAuthorityCount(1) IdentifierAuthority(6, big-endian) SubAuthority[](4, little-endian each)."""
     world = World(repo)
     runs = [Run(1, 1, True, (1, 1)), Run(1, None, True, (1, 1)), Run(1, None, True, (1, 15))]
     model = SidModel(repo, f, runs, world)
     model.groups_are_runs = _groups_are_first_runs(repo, f)
-    base = [n for n in body_nodes(f.node) if isinstance(n, ast.Assign) and isinstance(n.value, ast.Call) and unparse(n.value.func) == "bytearray" and n.value.args and (_pack_sink(repo, f, n.value.args[0]) or (None, 0, False, ""))[1] == 8]
-    sink = _pack_sink(repo, f, base[0].value.args[0]) if base else None  # type: ignore[attr-defined]
-    okb = sink is not None and sink[3] == "big" and _int_of_component(model, sink[0], base[0]) == (2, 2)
-    chk.ob("O3", Site.of(f, base[0] if base else None, None if base else "authority bytes"), bool(okb), "identifier authority (component 2) big-endian in bytes 2..7" if okb else "the identifier authority is not laid out as the low 6 bytes of an 8 byte big-endian value")
-    if not base:
+    try:
+        pieces, ret = sid_pieces(repo, f)
+    except NotUnderstood as e:
+        if any(not o.ok for o in chk.obligations if o.site.function == f.qual):
+            chk.note = f"layout of sid_to_bytes not decided ({e}); the grammar / range rules above already report this function"  # type: ignore[attr-defined]
+            return
+        raise AnalysisError(f"sid_to_bytes left the idiom table of the layout rule: {e}")
+    chk.table("sid pieces", [repr(p) for p in pieces])
+    site_r = Site.of(f, ret)
+    shape = [(p.kind, p.width) for p in pieces]
+    oks = shape == [("int", 1), ("int", 1), ("int", 6), ("loop", 0)] and len(pieces[3].body) == 1 and pieces[3].body[0].kind == "int"
+    chk.ob("O3", site_r, oks, "returns Revision(1) SubAuthorityCount(1) IdentifierAuthority(6) SubAuthority(4)*" if oks else f"the returned bytes are {pieces!r}; MS-DTYP 2.4.2.2 has revision:1 count:1 authority:6 then one 4 byte field per sub authority")
+    if not oks:
         return
-    name = unparse(base[0].targets[0])
-    stores = {repo.try_fold(n.targets[0].slice, f.mod)[1]: n for n in body_nodes(f.node) if isinstance(n, ast.Assign) and isinstance(n.targets[0], ast.Subscript) and unparse(n.targets[0].value) == name and repo.try_fold(n.targets[0].slice, f.mod)[0]}
-    s0 = 0 in stores and _int_of_component(model, stores[0].value, stores[0]) == (1, 1)
-    s1 = False
-    if 1 in stores:
-        v = stores[1].value
-        if isinstance(v, ast.Call) and unparse(v.func) == "len" and len(v.args) == 1:
-            s1 = model.seq_offset(v.args[0], stores[1]) == 3
-        elif isinstance(v, ast.BinOp) and isinstance(v.op, ast.Sub) and isinstance(v.left, ast.Call) and unparse(v.left.func) == "len" and len(v.left.args) == 1:
-            o = model.seq_offset(v.left.args[0], stores[1])
-            okk, k = repo.try_fold(v.right, f.mod)
-            s1 = o is not None and okk and isinstance(k, int) and o + k == 3
-        elif isinstance(v, ast.Name):
-            d = model.rd.single_def(v.id, stores[1])
-            if d is not None and isinstance(d.value, ast.Call) and unparse(d.value.func) == "len" and d.value.args:
-                s1 = model.seq_offset(d.value.args[0], d.nid) == 3
-    chk.ob("O3", Site.of(f, construct="revision and count bytes"), bool(s0 and s1), "byte 0 = revision, byte 1 = number of sub authorities" if s0 and s1 else "revision / sub authority count are not stored in bytes 0 and 1")
-    loops = [n for n in body_nodes(f.node) if isinstance(n, ast.For)]
-    app = [n for n in body_nodes(f.node) if isinstance(n, ast.AugAssign) and unparse(n.target) == name and isinstance(n.op, ast.Add)]
-    oka = False
-    if len(loops) == 1 and len(app) == 1 and any(x is app[0] for x in ast.walk(loops[0])):
-        sk = _pack_sink(repo, f, app[0].value)
-        comp = _int_of_component(model, sk[0], app[0]) if sk is not None else None
-        # every sub authority, in order: the loop runs over the parts from index 3 on (elements or ascending indices)
-        it = loops[0].iter
-        in_order = model.seq_offset(it, it) == 3 or (isinstance(it, ast.Call) and unparse(it.func) == "range" and len(it.args) == 2 and repo.try_fold(it.args[0], f.mod) == (True, 3) and isinstance(it.args[1], ast.Call) and unparse(it.args[1].func) == "len" and model.seq_offset(it.args[1].args[0], it) == 0)
-        oka = sk is not None and sk[1] == 4 and sk[3] == "little" and not sk[2] and comp is not None and comp[0] == 3 and bool(in_order)
-    chk.ob("O3", Site.of(f, app[0] if app else None, None if app else "sub authorities"), oka, "sub authorities appended in order, 4 bytes little-endian each" if oka else "sub authorities are not appended in order as 4 byte little-endian values")
-    rets = [n for n in body_nodes(f.node) if isinstance(n, ast.Return)]
-    chk.ob("O3", Site.of(f, rets[0] if rets else None, None if rets else "return"), len(rets) == 1 and unparse(rets[0].value) == f"bytes({name})", "returns the assembled bytes")
+    rev, cnt, auth, loop = pieces
+    s0 = _int_of_component(model, rev.value, rev.at) == (1, 1)
+    s1 = _is_count(model, t.cast(ast.expr, cnt.value), cnt.at)
+    chk.ob("O3", Site.of(f, rev.at, "revision and count bytes"), bool(s0 and s1), "byte 0 = revision, byte 1 = number of sub authorities" if s0 and s1 else "revision / sub authority count are not stored in bytes 0 and 1")
+    okb = auth.order == "big" and not auth.signed and _int_of_component(model, auth.value, auth.at) == (2, 2)
+    chk.ob("O3", Site.of(f, auth.at, "authority bytes"), bool(okb), "identifier authority (component 2) big-endian in bytes 2..7" if okb else "the identifier authority is not laid out as 6 big-endian bytes of component 2 in bytes 2..7")
+    sub = loop.body[0]
+    lp = t.cast(ast.For, loop.at)
+    comp = _int_of_component(model, sub.value, sub.at)
+    it = lp.iter
+    # every sub authority, in order: the loop runs over the parts from index 3 on (elements or ascending indices)
+    in_order = model.seq_offset(it, it) == 3 or (isinstance(it, ast.Call) and unparse(it.func) == "range" and len(it.args) == 2 and repo.try_fold(it.args[0], f.mod) == (True, 3) and isinstance(it.args[1], ast.Call) and unparse(it.args[1].func) == "len" and model.seq_offset(it.args[1].args[0], it) == 0)
+    oka = sub.width == 4 and sub.order == "little" and not sub.signed and comp is not None and comp[0] == 3 and bool(in_order)
+    chk.ob("O3", Site.of(f, sub.at), oka, "sub authorities appended in order, 4 bytes little-endian each" if oka else "sub authorities are not appended in order as 4 byte little-endian values")
 
 
 def _int_of_component(model: SidModel, e: t.Optional[ast.expr], at: t.Any) -> t.Optional[t.Tuple[int, t.Optional[int]]]:
